@@ -1358,7 +1358,8 @@ for _p, _h in (("C02", "deque"), ("C13", "mpmc"), ("C14", "hazard"), ("C15", "qu
 # classes added after the seeding rounds (DESIGN 8.6); appended to the rule text that goes into the evidence files
 COMMON_CLASSES = (" Fibers of the runtime harnesses now and then run a private life cycle (init, uncontended use with the try variants checked, destroy) of a mutex, semaphore, rwlock, "
                   "barrier, condition or spinlock on their own stack. One case in five initialises the objects under test in memory that is not zero (byte patterns), one in six asks fiber_create for another stack size; "
-                  "malloc memory holds a byte pattern or the addresses of recently allocated blocks, depending on the schedule seed.")
+                  "malloc memory holds a byte pattern or the addresses of recently allocated blocks, depending on the schedule seed. Long-stall runs: a stall schedule in which some thread "
+                  "busy-waited (cpu_relax) for the held one is run again with that thread held until the others have polled 2^26 + 2^22 times (up to 10^9 scheduling points); counted as long_stall_run.")
 EXTRA_RULE = {
     "C01": "The descriptor gadget really transfers bytes (op iowr); bursts of up to 40 000 runnable fibers in the storms; ghost: a fiber is only ever pushed onto the run queue of the "
            "kernel thread the pusher runs on, and only the owner writes 'bottom' of a run queue.",
